@@ -97,10 +97,14 @@ def report_idiom(body, prov, id_pred):
     for bi, t, e in g.switches():
         if e[0] != "discr" or not id_pred(e[1]):
             continue
-        # HandlerReqId: 0 = Internal, 1 = External
+        # HandlerReqId: 0 = Internal, 1 = External. `match` lists both values; `if let External(id) = ..` lists 1 and leaves
+        # Internal to the otherwise edge
+        ext = [tb for v, tb in t.vals if v == 1]
         for v, tb in t.vals:
             if v == 0:
                 edges.append((bi, tb))
+        if ext and not any(v == 0 for v, _ in t.vals) and t.otherwise is not None and t.otherwise not in ext:
+            edges.append((bi, t.otherwise))
     for bi, t in body.calls():
         if callee_matches(t, r"mpsc::Sender::<crate::handler::HandlerOut>::send$") and len(t.args) == 2:
             e = prov.operand(t.args[1])
@@ -301,7 +305,7 @@ def r1(ctx):
 def r2(ctx):
     facts = ctx.facts
     rule = Rule("C04.R2", "queued requests are released: on every path of new_session, after a consumed challenge, on "
-                "challenge expiry; writers of pending_requests are three functions", floor=4, engine="A-dom + A-who")
+                "challenge expiry; writers of pending_requests are three functions; a request is queued only while a release is bound to come", floor=7, engine="A-dom + A-who")
     ns = body_of(facts, H + "new_session")
     rule.analysed(ns)
     spr = [bi for bi, t in ns.calls() if (t.callee() or "") == H + "send_pending_requests"]
@@ -370,6 +374,64 @@ def r2(ctx):
     want = {H + "send_request", H + "send_pending_requests", H + "fail_session"}
     rule.check(writers <= want and writers, "mutable accesses to pending_requests: %s" % sorted(w.split("::")[-1] for w in writers),
                "pending|writers", "pending_requests is modified outside send_request / send_pending_requests / fail_session: %s" % sorted(writers - want))
+    # (e) a request is queued only while something is bound to release it: an outstanding challenge (released by the handshake, its failure
+    # or the challenge's expiry), or no session at all plus a session-initiating request in flight (released by new_session / fail_session).
+    # pending_requests has no timer of its own.
+    sr = body_of(facts, H + "send_request")
+    rule.analysed(sr)
+    ps = Prov(sr, facts)
+    gs = Guards(sr, ps, facts)
+    pushes = [bi for bi, t in sr.calls() if callee_matches(t, r"Vec::<.*PendingRequest.*>::push$", r"vec::Vec::push$") and
+              "pending_requests" in fmt_short(ps.operand(t.args[0]))]
+    if not pushes:
+        raise AnchorError("send_request: the push into pending_requests was not found")
+    addr = None
+    chal = []
+    wait = []
+    for bi, t, e in gs.switches():
+        neg = False
+        while e[0] == "un" and e[1] == "Not":
+            e, neg = e[2], not neg
+        f_, tr_ = gs.bool_edges(bi) if e[0] == "call" else (None, None)
+        if e[0] == "call" and short(e[1]).endswith("Option::is_some") and e[2][0][0] == "call" and short(e[2][0][1]).endswith("HashMapDelay::get") and \
+                fmt_short(e[2][0][2][0]) == "self.active_challenges":
+            chal.append((bi, tr_ if not neg else f_))          # the edge on which a challenge is outstanding
+            addr = fmt_short(e[2][0][2][1])
+        if e[0] == "call" and e[1] == H + "is_awaiting_session_to_be_established":
+            wait.append((bi, tr_ if not neg else f_, fmt_short(e[2][1])))
+    r = sr.reachable(0, removed_edges=chal + [(a_, b_) for a_, b_, _ in wait])
+    rule.check(bool(chal) and bool(wait) and not any(x in r for x in pushes) and all(w[2] == addr for w in wait),
+               "send_request queues only past active_challenges.get(addr).is_some() or is_awaiting_session_to_be_established(addr)", "send_request|queue-guard",
+               "send_request can queue a request although neither a challenge is outstanding nor a session is being established for that address: nothing will release it",
+               loc=sr.loc(sr.blocks[pushes[0]].term.line))
+    aw = body_of(facts, H + "is_awaiting_session_to_be_established")
+    rule.analysed(aw)
+    pw = Prov(aw, facts)
+    gw = Guards(aw, pw, facts)
+    nosess = []
+    for bi, t, e in gw.switches():
+        neg = False
+        while e[0] == "un" and e[1] == "Not":
+            e, neg = e[2], not neg
+        if e[0] == "call" and re.search(r"Option::is_(some|none)$", short(e[1])) and e[2][0][0] == "call" and re.search(r"LruTimeCache::(get|get_mut|peek)$", short(e[2][0][1])) and \
+                fmt_short(e[2][0][2][0]) == "self.sessions" and fmt_short(e[2][0][2][1]) == (aw.local_name(2) or "node_address"):
+            f_, tr_ = gw.bool_edges(bi)
+            some = short(e[1]).endswith("is_some") != neg
+            nosess.append((bi, f_ if some else tr_))
+        if e[0] == "discr" and e[1][0] == "call" and re.search(r"LruTimeCache::(get|get_mut|peek)$", short(e[1][1])) and fmt_short(e[1][2][0]) == "self.sessions":
+            nosess += [(bi, tb) for v, tb in t.vals if v == 0]
+    # returns that may be true: every definition of the return place that is not the constant false
+    may_true = [blk for lhs, kind, payload, blk, _l in pw.defs.get(0, ()) if not (kind == "rv" and payload.k == "use" and payload.ops[0].const_int() == 0)]
+    rr = aw.reachable(0, removed_edges=nosess)
+    rule.check(bool(nosess) and bool(may_true) and not any(x in rr for x in may_true),
+               "is_awaiting_session_to_be_established can return true only past `no session stored for the address`", "awaiting|session-exists",
+               "is_awaiting_session_to_be_established can return true although a session exists for the address: send_request then queues the request, and with the "
+               "session already established nothing (no handshake, no challenge expiry) will ever release or fail it", loc=aw.loc(aw.line))
+    ini = [bi for bi, t in aw.calls() if callee_matches(t, r"Iterator>::any$")]
+    clos = [cb for pth, cb in facts.bodies.items() if pth.startswith(aw.path + "::{closure#")]
+    by_flag = any(any(callee_matches(t, r"RequestCall::initiating_session$") for _, t in cb.calls()) for cb in clos)
+    rule.check(bool(ini) and by_flag and all(x in ini for x in may_true), "…and only if some active request to that address is initiating a session", "awaiting|initiating",
+               "is_awaiting_session_to_be_established does not depend on an in-flight session-initiating request", loc=aw.loc(aw.line))
     return rule
 
 
